@@ -9,6 +9,8 @@ import Reamber.Lemmas.RateStack
 import Reamber.Lemmas.RateLaws
 import Reamber.Generated.RateSchema
 import Reamber.Spec.Timing
+import Reamber.Lemmas.RateFormats
+import Reamber.Props.C06
 
 namespace Reamber.Rate
 
@@ -127,11 +129,10 @@ theorem rateSet_scales (k : SetKind) (g : Game) (r : Rat) (s : MapSet) (hok : se
   | base => simp [scaleSet]
   | sm =>
     simp only [if_true, Bool.and_eq_true] at hk
-    obtain ⟨⟨ho, hs⟩, hl⟩ := hk
-    obtain ⟨o, ho⟩ := Option.isSome_iff_exists.mp ho
+    obtain ⟨hs, hl⟩ := hk
     obtain ⟨ss, hs⟩ := Option.isSome_iff_exists.mp hs
     obtain ⟨sl, hl⟩ := Option.isSome_iff_exists.mp hl
-    simp [hr, ho, hs, hl, divOpt, scaleSet, bind, Except.bind]
+    simp [hr, hs, hl, divOpt, scaleSet, bind, Except.bind]
 
 /-- the specification the harness evaluates on the implementation's output accepts the model's output (ε = 0) -/
 theorem rateSet_spec (k : SetKind) (g : Game) (r : Rat) (s out : MapSet) (hok : setOk k g s = true) (hr : r ≠ 0)
@@ -219,18 +220,109 @@ theorem d04_offset_must_scale :
     timeAt 1000 ([⟨120, 4, ⟨0, 0, some 4⟩⟩].map (rateBc 2)) ⟨0, 1, some 4⟩ ≠
       timeAt 1000 [⟨120, 4, ⟨0, 0, some 4⟩⟩] ⟨0, 1, some 4⟩ / 2 := by decide +kernel
 
+/-! ## survives a write — Quaver and osu, by composition with the writers' theorems (C06, C01)
+
+`encQua` / `encOsu` present a typed chart of the format models as the frames the library holds (`objs`, sample
+events, preview point); `scaleQua` / `scaleOsu` are the rated charts row by row. -/
+
+/-- **rate_write_read_qua**: for every Quaver chart with well-formed metadata and list-valued key sounds (the
+hypotheses of `qua_write_denotes`: D08 open) and every `r ≠ 0`: `QuaMap.rate(r)` returns the rated chart, that chart
+can be written, and the by-the-book denotation of the written document is the rated chart with every time truncated
+to whole milliseconds — every time of the rated timeline is read back moved by less than 1 ms, tempos, SV multipliers,
+lanes, key sounds and metadata exactly (`closeChart`). -/
+theorem rate_write_read_qua (r : Rat) (c : Qua.Chart) (hr : r ≠ 0) (hm : Qua.MetaOk c.info)
+    (hk : Qua.Spec.ksLists c = true) :
+    rateChart .qua r (encQua c) = .ok (encQua (scaleQua r c)) ∧
+    ∃ d, Qua.write (scaleQua r c) = .ok d ∧
+      Qua.Spec.denote d = .ok (Qua.Spec.quantize (scaleQua r c)) ∧
+      Qua.Spec.closeChart (scaleQua r c) (Qua.Spec.quantize (scaleQua r c)) = true := by
+  refine ⟨by rw [rateChart_scales .qua r _ (chartOk_encQua c) hr, scaleChart_encQua], ?_⟩
+  have hm' : Qua.MetaOk (scaleQua r c).info := hm
+  have hk' : Qua.Spec.ksLists (scaleQua r c) = true := by
+    simpa [Qua.Spec.ksLists, scaleQua, List.all_map, Function.comp_def] using hk
+  have hw : ∃ d, Qua.write (scaleQua r c) = .ok d := by
+    unfold Qua.write
+    rw [Qua.writeMeta_ok _ hm']
+    exact ⟨_, rfl⟩
+  obtain ⟨d, hd⟩ := hw
+  exact ⟨d, hd, Qua.qua_write_denotes (scaleQua r c) d hm' hk' hd⟩
+
+/-- **rate_write_read_osu_partial**: for every osu chart (key count 1..256, lanes inside it, no `,`/`:` in hit-sound
+file names, no `,` in sample file names) and every `r ≠ 0`: `OsuMap.rate(r)` returns the rated chart, and the three
+sections that `write` emits for it read back as the rated chart quantised by the format — object lines: the rated
+hits and holds with times truncated to whole ms; timing lines: the rated tempo points and SVs (values exactly);
+sample events: the rated sample events truncated to whole ms.  Hypotheses on the float renderer (`BpmOk`/`SvOk`:
+`repr` of the rated values reads back) are those of C01.
+_partial_ because C01 proves the round trip per section, not for the whole file text (section splitting and the
+`[General]…[Difficulty]` key/value lines, where `PreviewTime` lives, are not composed here); the preview point is
+covered in memory (`rateChart_scales`) and by the write → read correspondence check only. -/
+theorem rate_write_read_osu_partial (R : Osu.Render) (r : Rat) (c : Osu.Chart) (hr : r ≠ 0)
+    (hk : 0 < Osu.pyTrunc c.md.circleSize) (hk' : Osu.pyTrunc c.md.circleSize ≤ 256)
+    (hhits : ∀ h ∈ c.hits, 0 ≤ h.column ∧ h.column < Osu.pyTrunc c.md.circleSize ∧ ',' ∉ h.file ∧ ':' ∉ h.file)
+    (hholds : ∀ h ∈ c.holds, 0 ≤ h.column ∧ h.column < Osu.pyTrunc c.md.circleSize ∧ ',' ∉ h.file ∧ ':' ∉ h.file)
+    (hb : ∀ b ∈ (scaleOsu r c).bpms, Osu.BpmOk R b) (hs : ∀ b ∈ (scaleOsu r c).svs, Osu.SvOk R b)
+    (hf : ∀ s ∈ c.md.samples, ',' ∉ s.file) :
+    rateChart .osu r (encOsu c) = .ok (encOsu (scaleOsu r c)) ∧
+    (Osu.mapE (fun s => Osu.readHit s (Osu.pyTrunc c.md.circleSize))
+        ((((Osu.sortedObjs (scaleOsu r c)).map (Osu.writeObj (Osu.pyTrunc c.md.circleSize))).map R.line).filter Osu.isHit)
+      = .ok (Osu.quantize R.uni (scaleOsu r c)).hits ∧
+     Osu.mapE (fun s => Osu.readHold s (Osu.pyTrunc c.md.circleSize))
+        ((((Osu.sortedObjs (scaleOsu r c)).map (Osu.writeObj (Osu.pyTrunc c.md.circleSize))).map R.line).filter Osu.isHold)
+      = .ok (Osu.quantize R.uni (scaleOsu r c)).holds) ∧
+    (Osu.mapE Osu.readSv ((((scaleOsu r c).bpms.map Osu.writeBpm ++ (scaleOsu r c).svs.map Osu.writeSv).map R.line).filter Osu.isSliderVelocity)
+      = .ok (Osu.quantize R.uni (scaleOsu r c)).svs ∧
+     Osu.mapE Osu.readBpm ((((scaleOsu r c).bpms.map Osu.writeBpm ++ (scaleOsu r c).svs.map Osu.writeSv).map R.line).filter Osu.isTimingPoint)
+      = .ok (Osu.quantize R.uni (scaleOsu r c)).bpms) ∧
+    Osu.mapE Osu.readSample ((((scaleOsu r c).md.samples.map Osu.writeSample).map R.line).filter (Osu.startsWith Osu.pSample))
+      = .ok ((scaleOsu r c).md.samples.map Osu.qSample) := by
+  refine ⟨by rw [rateChart_scales .osu r _ (chartOk_encOsu c) hr, scaleChart_encOsu], ?_, ?_, ?_⟩
+  · apply Osu.readObjs_writeObjs R _ hk hk'
+    intro o ho
+    unfold Osu.sortedObjs at ho
+    rw [mem_isort'] at ho
+    simp only [scaleOsu, List.map_map, List.mem_append, List.mem_map, Function.comp_def] at ho
+    rcases ho with ⟨h, hh, rfl⟩ | ⟨h, hh, rfl⟩
+    · exact hholds h hh
+    · exact hhits h hh
+  · exact Osu.readTiming_writeTiming R (scaleOsu r c).bpms (scaleOsu r c).svs hb hs
+  · apply samples_roundtrip R
+    intro s hs'
+    simp only [scaleOsu, List.mem_map] at hs'
+    obtain ⟨s0, hs0, rfl⟩ := hs'
+    exact hf s0 hs0
+
+/-- non-vacuity: a Quaver chart inside the hypotheses (hit, hold, two tempo points, an SV, fractional and negative
+times), and what rating it by 3/2 does to its frames -/
+example : Qua.MetaOk Qua.sampleChart.info ∧ Qua.Spec.ksLists Qua.sampleChart = true :=
+  ⟨⟨by decide +kernel, by decide +kernel⟩, by decide +kernel⟩
+
+example : (scaleQua (3/2) Qua.sampleChart).bpms = [⟨0, 180, 3⟩, ⟨10009 / 15, 50, 4⟩] := by decide +kernel
+
+/-- non-vacuity for osu: a chart inside the hypotheses on lanes / file names -/
+example : let c : Osu.Chart := { hits := [{ offset := 7/2, column := 1 }], holds := [{ offset := 1, column := 0, length := 3/2 }] }
+    (0 < Osu.pyTrunc c.md.circleSize ∧ Osu.pyTrunc c.md.circleSize ≤ 256) ∧
+    (scaleOsu 2 c).hits = [{ offset := 7/4, column := 1 }] := by decide +kernel
+
 /-! ## the error branches are not totalised away -/
 
-/-- a StepMania set whose `offset` is still `None` (never read, never set by a converter): `None /= by` raises
-TypeError — after the maps have been rated.  (Why `setOk` asks for `offset.isSome`.) -/
+def exSmSet : MapSet := { maps := [], offset := none, sampleStart := some 0, sampleLength := some 10, extra := [] }
+
+
+/-- a StepMania set whose `offset` is still `None` (built from objects, never read, never set by a converter):
+since the follow-up of D04 (`if sms.offset is not None`) nothing raises — the maps and the sample window are rated
+and the unset offset stays unset. -/
 theorem rateSet_sm_offset_none (g : Game) (r : Rat) (s : MapSet) (hm : ∀ c ∈ s.maps, chartOk g c = true) (hr : r ≠ 0)
     (ho : s.offset = none) (hs : s.sampleStart.isSome = true) (hl : s.sampleLength.isSome = true) :
-    rateSet .sm g r s = .error .type := by
-  unfold rateSet
-  rw [mapE_ok_map (rateChart g r) (scaleChart g r) s.maps (fun c hc => rateChart_scales g r c (hm c hc) hr)]
-  obtain ⟨ss, hs⟩ := Option.isSome_iff_exists.mp hs
-  obtain ⟨sl, hl⟩ := Option.isSome_iff_exists.mp hl
-  simp [hr, ho, hs, hl, divOpt, bind, Except.bind]
+    ∃ out, rateSet .sm g r s = .ok out ∧ out.offset = none ∧ out.maps = s.maps.map (scaleChart g r) := by
+  have hok : setOk .sm g s = true := by
+    simp only [setOk, Bool.and_eq_true, List.all_eq_true, if_true]
+    exact ⟨hm, hs, hl⟩
+  refine ⟨_, rateSet_scales .sm g r s hok hr, ?_, ?_⟩
+  · simp [scaleSet, ho]
+  · simp [scaleSet]
+
+/-- the sample window, in contrast, is always a number in the code (`float` defaults): a `None` there still raises -/
+example : rateSet .sm .sm 2 { exSmSet with sampleStart := none } = .error .type := by decide +kernel
 
 /-- no list with a `bpm` column: `stack.bpm` raises KeyError (why `listsOk` asks for the three columns; the generated
 schema shows every game's map has them) -/
